@@ -153,6 +153,17 @@ CLAIMS['C05'] = dict(
          'stand-in on every run. Two listed known findings (voronoi dead read, getdate out-of-range cast).',
     technique=TECH_A, engine='llir', ref='DESIGN.md section 3, C05')
 
+CLAIMS['C19'] = dict(
+    text='get_batch is executed with a symbolic number of elements (up to 1e6) for every batch index of each concrete number of batches: z3 decides that '
+         'the batches are contiguous, ordered, disjoint, cover every element once and differ in size by at most one, and that invalid calls raise '
+         'ValueError. OptionManager: CrossHair confirms over all paths (symbolic integer lists) that from_cartesian_product enumerates every combination '
+         'exactly once, that to_dict/from_dict give equality in both directions also with renamed keys, and that different managers compare unequal.',
+    note='np.arange/np.array_split are replaced by a range model validated against the real numpy on every run. Bounds: nbatch 1..8 (16 thorough); option '
+         'lists of 1-3 distinct integers. OptionManager.find is attempted in a tighter bound and reported inconclusive when CrossHair does not finish '
+         '(regex on str(int)); SiteBatch.search is only enumerated on small site lists.',
+    technique='symbolic execution of the real Python with z3 (own executor for get_batch; CrossHair for the option manager)', engine='pysym+ch',
+    ref='DESIGN.md section 3, C19')
+
 PENDING = 'check not built yet in this session (planned, see DESIGN.md section 3)'
 NOT_APPLICABLE = {
     'C13': 'persistence is carried by numpy tofile/fromfile, dtype objects, zipfile and float repr: no arithmetic core a solver can be given; '
